@@ -1,25 +1,18 @@
 package c20
 
-// Families owned by other work packages (pkg/cbfs → wp-c19, pkg/amd/apcb → wp-c18, pkg/amd/manifest →
-// wp-c17).  They dropped their hostile inputs into corpus/C20 as *notes* ({"note": …, "hex": …,
-// "entry_points": […]}, no "op").  Until those packages bring structured seeds and field maps of
-// their own (and GoM models), the notes are the seeds here: each is run as it is and mutated (an
-// 8/16/32-bit field at every offset of its first 256 bytes, random mutants), oracles only.
-// File-name prefix selects the family: cbfs-*, apcb-*, amd-*.
+// The work packages that built C17 / C18 / C19 dropped hostile inputs into corpus/C20 as *notes*
+// ({"note": …, "hex": …, "entry_points": […]}, no "op", so the corpus loader of the framework skips
+// them).  noteSeeds turns them into additional seeds of the family entry points (ep_apcb.go,
+// ep_cbfs.go, ep_amd.go): each is run as it is and mutated (an 8/16/32-bit field at every offset of
+// its first 256 bytes, random mutants).  File-name prefix selects the family: cbfs-*, apcb-*, amd-*.
 
 import (
-	"bytes"
 	"encoding/hex"
 	"encoding/json"
-	"math/rand"
 	"os"
 	"path/filepath"
 	"sort"
 	"strings"
-
-	"github.com/linuxboot/fiano/pkg/amd/apcb"
-	"github.com/linuxboot/fiano/pkg/amd/psb"
-	"github.com/linuxboot/fiano/pkg/cbfs"
 
 	"verif/harness/core"
 )
@@ -66,54 +59,4 @@ func noteSeeds(prefix string) []Seed {
 		ss = append(ss, Seed{Name: "note:" + name, In: in, Fields: fs})
 	}
 	return ss
-}
-
-func init() {
-	Register(&EP{
-		Name:  "cbfs.newimage",
-		Seeds: func(r *rand.Rand) []Seed { return noteSeeds("cbfs-") },
-		Run: func(in []byte, _ map[string]string) Res {
-			img, err := cbfs.NewImage(bytes.NewReader(in))
-			if err == nil && img != nil {
-				_ = img.String()
-			}
-			return Res{Class: class(err), Sub: errSub(err)}
-		},
-		Quick: 900,
-	})
-	Register(&EP{
-		Name:  "apcb.parse+upsert",
-		Seeds: func(r *rand.Rand) []Seed { return noteSeeds("apcb-") },
-		Run: func(in []byte, _ map[string]string) Res {
-			_, err := apcb.ParseAPCBBinaryTokens(in)
-			// the modifying entry point on the same hostile container (a copy: it writes in place)
-			cp := append([]byte(nil), in...)
-			err2 := apcb.UpsertToken(apcb.TokenID(0x3E7D5274), 0xff, 0xffff, false, cp)
-			sub := errSub(err)
-			if err2 != nil {
-				sub += "+upsert-err"
-			}
-			return Res{Class: class(err), Sub: sub}
-		},
-		Quick: 900,
-	})
-	Register(&EP{
-		Name: "amd.firmware",
-		Seeds: func(r *rand.Rand) []Seed {
-			ss := noteSeeds("amd-")
-			// the small AMD image of ep_psb.go as a structured seed (EFS + PSP directory)
-			img, fs := amdRegion(testKey())
-			ss = append(ss, Seed{Name: "efs+pspdir", In: padTo(img, amdImgSize)[:amdImgSize], Fields: fs})
-			// image lengths around the reach of the EFS anchors (DESIGN.md §8 #10)
-			for _, l := range []int{0x5fffb, 0x5fffc, 0x5ffff, 0x60000, 0x60003} {
-				ss = append(ss, Seed{Name: "attack-length-" + itoa(l), In: make([]byte, l)})
-			}
-			return ss
-		},
-		Run: func(in []byte, _ map[string]string) Res {
-			_, err := psb.ParseAMDFirmware(in)
-			return Res{Class: class(err), Sub: errSub(err)}
-		},
-		Quick: 150,
-	})
 }
